@@ -433,6 +433,13 @@ func (r *Rig) ApplyMut(fs *FileSet, m Mut, pool *Pool) error {
 		fs.Anchor = fmt.Sprintf("%d.%s", nD, fs.CoreIndex)
 		_ = parts
 		return nil
+	case "blankChunkRef":
+		// a chunk entry that names no file; whatever the CAS would serve under the empty address must not be read
+		r.CAS.M[""] = r.CAS.M[fs.Chunk]
+		return edit(fs.ProvIndex, func(j map[string]interface{}) error {
+			j["chunks"] = []interface{}{[]interface{}{map[string]interface{}{}, map[string]interface{}{"chunkFileUri": ""}, nil}[(m.I-1)%3]}
+			return nil
+		})
 	case "addChunkRef":
 		return edit(fs.ProvIndex, func(j map[string]interface{}) error {
 			chunks, _ := j["chunks"].([]interface{})
